@@ -191,7 +191,7 @@ Proof.
     + exists ce. split; auto.
 Qed.
 
-Lemma c19_split_proof : C19_split.
+Lemma c19_split_partial_proof : C19_split_partial.
 Proof.
   intros r chunk Hok Hc. destruct (rend r) as [e|] eqn:Hr.
   - destruct (split_chain r chunk e Hok Hc Hr) as (l & Hl & Hch).
@@ -199,6 +199,15 @@ Proof.
     intros n. destruct Hok as [Hs He]. rewrite Hr in He.
     rewrite (chain_union _ _ _ _ _ _ Hch n). unfold in_range. rewrite Hr. tauto.
   - unfold split. rewrite Hr. reflexivity.
+Qed.
+
+Lemma c19_split_exact_proof : C19_split_exact.
+Proof.
+  intros r chunk Hok Hc Hf. pose proof (c19_split_partial_proof r chunk Hok Hc) as H.
+  destruct (rend r) as [e|]; [|exact H].
+  destruct H as (l & Hl & Hsh & Hu). exists l. split; [exact Hl|]. split; [exact Hsh|].
+  intros n. rewrite (Hu n). split; [tauto|]. intros Hin. split; [exact Hin|].
+  intros (Hx & Hy & _). rewrite Hx, Hy in Hf. discriminate.
 Qed.
 
 (* the full statement fails for a both-exclusive range with two chunks *)
